@@ -651,7 +651,7 @@ func runPure(r *hx.Run, cfg hx.Config, rnd *hx.Rand) {
 	}
 
 	// single coalescers
-	for i := 0; i < cfg.N(2500, 60000) && !r.Stop(); i++ {
+	for i := 0; i < cfg.N(2500, 150000) && !r.Stop(); i++ {
 		k := kinds[i%len(kinds)]
 		hs := g.hashes()
 		a := g.arts(k, hs)
@@ -671,7 +671,7 @@ func runPure(r *hx.Run, cfg hx.Config, rnd *hx.Rand) {
 	}
 
 	// the whole coalesce step
-	for i := 0; i < cfg.N(1200, 30000) && !r.Stop(); i++ {
+	for i := 0; i < cfg.N(1200, 60000) && !r.Stop(); i++ {
 		hs := g.hashes()
 		var ecos []eco
 		for _, k := range kinds {
